@@ -98,6 +98,18 @@ def check_case(out: Outcome, case, tag):
     m = np.array(list(map(int, core.drive1(f'volume {nv[0]} {nv[1]} {nv[2]} {pts}').split()[1:])), dtype=int).reshape(nv)
     if not boundary_ambiguous and not np.array_equal(m, data):
         out.fail('property' if not np.array_equal(data, want) else 'correspondence', 'model-volume', case, expected=m.tolist(), observed=data.tolist())
+    # additivity (C08.counts_append_get): the volumes of the two halves of the run, taken from the SAME trajectory object, add up to the
+    # volume of the whole, voxel by voxel
+    if T >= 2:
+        h = 1 + (T + A) % (T - 1)
+        try:
+            va, vb = np.array(trajectory_to_volume(tr[:h], resolution=res).data), np.array(trajectory_to_volume(tr[h:], resolution=res).data)
+            if va.shape != data.shape or not np.array_equal(va + vb, data):
+                out.fail('property', 'volume-additive-over-parts', {**case, 'cut_at_frame': h}, expected=int(data.sum()),
+                         observed=int(va.sum() + vb.sum()) if va.shape == data.shape else list(va.shape),
+                         note='volume(frames[:h]) + volume(frames[h:]) differs from volume(all frames)')
+        except Exception as e:  # noqa: BLE001
+            out.fail('property', 'volume-build', {**case, 'cut_at_frame': h}, observed=type(e).__name__ + ': ' + str(e)[:100])
     # voxel size: resolution <= edge < 2 x resolution
     vs = np.array(vol.voxel_size)
     for l, n, v in zip(L, nv, vs):
